@@ -481,12 +481,20 @@ def _strategy_a(shapes):
             # mixed batch: one component truncated deep in its upper tail, the others around their modes
             if draw(st.sampled_from([False, False, True])):
                 k = draw(st.integers(0, n - 1))
-                z = draw(gen.floats(6.0, 9.5))
+                z = draw(gen.floats(6.8, 9.5))
                 lam_k, nu_k = float(case["Lambda"][k, 0, 0]), float(case["nu"][k, 0])
                 lo = np.asarray(case["lo"], float).copy()
                 lo[k, 0] = nu_k / lam_k + z / np.sqrt(lam_k)
                 case["lo"] = lo
+                # ... while another component is truncated below its mode, and the lower limits are in force
+                j = (k + 1) % n
+                lo[j, 0] = float(case["nu"][j, 0]) / float(case["Lambda"][j, 0, 0]) - 0.5 / np.sqrt(float(case["Lambda"][j, 0, 0]))
+                case["lo"] = lo
+                case["one_sided"] = draw(st.sampled_from(["no", "lower"]))
                 case["far_tail_component"] = k
+                if draw(st.booleans()):
+                    case["idx"] = [k] * draw(st.integers(1, 2))  # isolate the tail component from the others
+                    case["op"] = draw(st.sampled_from(["density_mean", "density_mean", "x", "x**2", "x**k"]))
             return case
         case["px"] = {"Sigma": draw(gen.spd(n, Dx, kappa=6.0, lam_lo=0.2, lam_hi=0.5)), "mu": draw(gen.arr((n, Dx), -1.5, 1.5))}
         case["q"] = {"Sigma": draw(gen.spd(n, Dx + Dy, kappa=6.0, lam_lo=0.2, lam_hi=0.5)), "mu": draw(gen.arr((n, Dx + Dy), -1.5, 1.5))}
